@@ -30,6 +30,6 @@ Deliverables in $out :
   1. patch.diff  - output of  git -C $wt diff  covering ONLY your change to non-test source files (NOT the demo test). Produce it before adding the demo file, or use  git diff -- <files>.
   2. zz_seed_demo_test.go - the demonstration test file (a copy).
   3. demo_path.txt - first line: the exact command to run the demo, in this form (package dir last):   go1.26.8 test -vet=off -count=1 -run 'TestName' ./pkgdir/     ; then a few lines: which file/function you changed, what the change is, why existing tests do not notice, and what specific situation makes it manifest.
-Verify yourself before finishing: demo passes on the clean tree (git stash your change or check with the patch reversed), demo fails with the change, full suite passes with the change (without the demo file present). Leave the worktree with your change applied and the demo file present. Report a short summary as your final answer.
+Verify yourself before finishing: demo passes on the clean tree (check with the patch reversed: git apply -R; NEVER git stash), demo fails with the change, full suite passes with the change (without the demo file present). Leave the worktree with your change applied and the demo file present. Report a short summary as your final answer.
 EOT
 echo /tmp/seedprompts/$id$sfx.txt
